@@ -1,2 +1,4 @@
 import Verif.Properties.C18
 #print axioms C18.ids_unique_after_mixin
+#print axioms C18.renameIds_no_collision
+#print axioms C18.renameOps_keeps_ids_without_collision
